@@ -832,20 +832,23 @@ def task_env_eq(model: str, tier: str) -> Dict[str, Any]:
     return acc.result()
 
 
-def task_actions_capped(model: str, tier: str) -> Dict[str, Any]:
+def task_actions_capped(model: str, tier: str, what: str) -> Dict[str, Any]:
     """Finite converted spaces with more elements than the cap (not exhaustive, reported as capped):
-    1 024 elements of each synthetic one, `cap` elements of each environment action space."""
+    1 024 elements of each synthetic one, min(cap, 10 000) elements of each environment action space."""
     acc = Acc(model)
     cap = CAP[tier]
-    for kind in ref.LEAF_KINDS:
-        for r in uni.LEAF_UNIVERSE[kind](names=("",)):
+    if what == "synthetic":
+        for kind in ref.LEAF_KINDS:
+            for r in uni.LEAF_UNIVERSE[kind](names=("",)):
+                _, spec, view, _ = make_item(r)
+                check_actions(acc, r, spec, view, Conv(acc, r, spec, view, quiet=True), cap, capped_pass=True, budget=1024)
+    else:
+        for name, fam, ctor in uni.env_ctors(tier):
+            r = {"t": "env", "ctor": ctor, "which": "action_spec", "path": []}
             _, spec, view, _ = make_item(r)
-            check_actions(acc, r, spec, view, Conv(acc, r, spec, view, quiet=True), cap, capped_pass=True, budget=1024)
-    for name, fam, ctor in uni.env_ctors(tier):
-        r = {"t": "env", "ctor": ctor, "which": "action_spec", "path": []}
-        _, spec, view, _ = make_item(r)
-        if view.kind != "Spec":
-            check_actions(acc, r, spec, view, Conv(acc, r, spec, view, quiet=True), cap, capped_pass=True, budget=cap)
+            if view.kind != "Spec":
+                check_actions(acc, r, spec, view, Conv(acc, r, spec, view, quiet=True), cap, capped_pass=True,
+                              budget=min(cap, 10_000))
     return acc.result()
 
 
@@ -925,7 +928,8 @@ def build_tasks(tier: str) -> List[Tuple[str, str, Dict[str, Any]]]:
     for kind in ("Array", "DiscreteArray", "MultiDiscreteArray"):
         tasks.append((M, "task_leaf", dict(model=f"leaf-{kind}", kind=kind, tier=tier)))
         tasks.append((M, "task_eq", dict(model=f"eq-{kind}", kind=kind)))
-    tasks.append((M, "task_actions_capped", dict(model="actions-over-cap", tier=tier)))
+    for what in ("synthetic", "env"):
+        tasks.append((M, "task_actions_capped", dict(model=f"actions-over-cap-{what}", tier=tier, what=what)))
     tasks.append((M, "task_dtypes", dict(model="get_valid_dtype")))
     return tasks
 
